@@ -126,7 +126,7 @@ def gen_cases(tier, seed):
                 cases.append({"k": "sep", "i0": i0, "ev": _toggle_word(word, i0, PS_LETTERS), "r": "exh"})
     # --- random walks
     N = 300
-    reps = 30 if thorough else 4
+    reps = 30 if thorough else 8
     for st in (2, 3, 4, 5):
         for regime in ("ofast", "ifast", "coinc", "pulses"):
             for _ in range(reps):
@@ -458,6 +458,30 @@ def nontrivial(c, obs):
     if k == "sep":
         return any(kind in (2, 3) for kind, _ in c["ev"])
     return len(set(_unpack_out(c, obs[_HDR[k]:], len(c["ev"]) + 1))) > 1
+
+
+def extra(tier, seed, findings):
+    """coverage of the hypotheses of the pulse theorems among the generated PulseSynchronizer words"""
+    n = sep = flushed = pulses = 0
+    for c in gen_cases(tier, seed):
+        if c["k"] != "ps":
+            continue
+        n += 1
+        cur, since, n_in = c["i0"] & 1, None, 0
+        for kind, v in c["ev"]:
+            if v is not None:
+                cur = v & 1
+            if kind in (1, 3) and since is not None:
+                since += 1
+            if kind in (2, 3) and cur:
+                since, n_in = 0, n_in + 1
+        pulses += n_in
+        if _py_separated(c["i0"], c["ev"]):
+            sep += 1
+            if n_in and since >= c["st"]:
+                flushed += 1
+    return [], {"ps_words": n, "ps_words_separated": sep, "ps_words_separated_flushed_with_pulses": flushed,
+                "ps_input_pulses_total": pulses}
 
 
 def explain(c):
